@@ -367,6 +367,7 @@ impl MqttState {
 
         self.inflight -= 1;
 
+        // a failure reason ends the flow just like a success does: the id is free again
         if puback.reason != PubAckReason::Success
             && puback.reason != PubAckReason::NoMatchingSubscribers
         {
@@ -374,7 +375,6 @@ impl MqttState {
                 "PubAck Pkid = {:?}, reason: {:?}",
                 puback.pkid, puback.reason
             );
-            return Ok(None);
         }
 
         if let Some(publish) = self.check_collision(puback.pkid) {
@@ -410,7 +410,10 @@ impl MqttState {
                 "PubRec Pkid = {:?}, reason: {:?}",
                 pubrec.pkid, pubrec.reason
             );
-            return Ok(None);
+            // the broker refused the publish: no PUBREL follows, the flow ends here
+            // and the id is free again
+            self.inflight -= 1;
+            return Ok(self.resend_collided(pubrec.pkid));
         }
 
         // NOTE: Inflight - 1 for qos2 in comp
@@ -449,12 +452,12 @@ impl MqttState {
         }
         self.outgoing_rel.set(pubcomp.pkid as usize, false);
 
+        // a failure reason ends the flow just like a success does: the id is free again
         if pubcomp.reason != PubCompReason::Success {
             warn!(
                 "PubComp Pkid = {:?}, reason: {:?}",
                 pubcomp.pkid, pubcomp.reason
             );
-            return Ok(None);
         }
 
         self.inflight -= 1;
@@ -645,6 +648,20 @@ impl MqttState {
         self.events.push_back(event);
 
         Ok(Some(Packet::Disconnect(Disconnect::new(reason))))
+    }
+
+    /// Records and returns the publish parked on `pkid`, if any, now that the id is free
+    fn resend_collided(&mut self, pkid: u16) -> Option<Packet> {
+        self.check_collision(pkid).map(|publish| {
+            self.outgoing_pub[publish.pkid as usize] = Some(publish.clone());
+            self.inflight += 1;
+
+            let event = Event::Outgoing(Outgoing::Publish(publish.pkid));
+            self.events.push_back(event);
+            self.collision_ping_count = 0;
+
+            Packet::Publish(publish)
+        })
     }
 
     fn check_collision(&mut self, pkid: u16) -> Option<Publish> {
